@@ -11,7 +11,10 @@ Definition pair_eqb {A} (f : A -> A -> bool) (a b : option A) : bool :=
    internal_error) and otherwise only "refused" *)
 Definition named (e : ecode) : bool :=
   match e with EInvalidClient | EAuthPending | ESlowDown | EExpiredToken | EInternalError => true | _ => false end.
+Definition is_other (e : ecode) : bool := match e with EOther => true | _ => false end.
+(* a model answer EOther stands for "refused, with a code that depends on the bytes of a forgery" *)
 Definition err_match (strict : bool) (a b : ecode) : bool :=
+  if is_other a then true else
   if strict then ecode_eqb a b
   else if orb (named a) (named b) then ecode_eqb a b else true.
 
@@ -44,7 +47,11 @@ Definition obs_match (strict : bool) (now : Z) (m i : obs) : bool :=
       (andb (near (in_exp a - now) (in_exp b)) (andb (ideq (in_jkt a) (in_jkt b)) (ideq (in_x5t a) (in_x5t b))))))))
   | Out OOk, Out OOk => true
   | Out (OUserInfo a), Out (OUserInfo b) => seqb a b
-  | Out (ONav m1 t1 n1), Out (ONav m2 t2 n2) => andb (seqb m1 m2) (andb (seqb t1 t2) (nav_match strict n1 n2))
+  | Out (ONav m1 t1 n1), Out (ONav m2 t2 n2) =>
+      (* with no parameter at all the mode leaves no trace in the response *)
+      let bare := andb (is_nil (n_code n1)) (andb (is_nil (n_at n1)) (andb (negb (n_idt n1))
+                  (andb (is_empty (n_state n1)) (match n_err n1 with None => true | _ => false end)))) in
+      andb (orb bare (seqb m1 m2)) (andb (seqb t1 t2) (nav_match strict n1 n2))
   | Out (OPage a), Out (OPage b) => ideq a b
   | Out OPanic, Out OPanic => true
   | Notified a l1, Notified b l2 => andb (Bool.eqb a b) (list_eqb notif_eqb l1 l2)
